@@ -48,7 +48,9 @@ func (o *Out) Maturity() uint64 {
 	case ClassStaking:
 		m = o.Frozen + 1
 	case ClassBinding:
-		if len(o.Target) == 22 {
+		// consensus (scriptval.go): a binding output created at or after the MASSIP0002 warm-up
+		// height carries the relative lock; 22-byte targets exist only from that height on
+		if o.Height >= consensus.MASSIP0002WarmUpHeight || len(o.Target) == 22 {
 			m = consensus.MASSIP0002BindingLockedPeriod
 		}
 	}
